@@ -497,7 +497,7 @@ pub fn run(tier: Tier) -> ! {
     let nb = bset.len();
     let micro = run.micro();
     // (micro tier: a 1/stride^2 lattice of the boundary pairs)
-    let stride = if micro { (nb / 24).max(1) } else { 1 };
+    let stride = if micro { (nb / 9).max(1) } else { 1 };
     let accs: Vec<Acc> = (0..nb)
         .into_par_iter()
         .filter(|i| i % stride == 0)
@@ -519,7 +519,7 @@ pub fn run(tier: Tier) -> ! {
     let bh1 = plonky2_util::verif_hooks::BRANCH_HINTS.load(Ordering::Relaxed);
 
     // Phase 2: structured-random tuples.
-    let n_random: u64 = run.n(640, 20_000_000, 400_000_000);
+    let n_random: u64 = run.n(160, 20_000_000, 400_000_000);
     let chunk: u64 = if micro { 40 } else { 50_000 };
     let seed = run.seed;
     let accs: Vec<(Acc, u64)> = (0..n_random / chunk)
@@ -551,7 +551,7 @@ pub fn run(tier: Tier) -> ! {
     {
         let mut rng = run.rng(14_002, 0);
         let mut acc = Acc::default();
-        for _ in 0..run.n(120, 200_000, 5_000_000) {
+        for _ in 0..run.n(40, 200_000, 5_000_000) {
             // a + b with both in [2^64 - 2^32, 2^64): double overflow iff low words sum past 2^32
             let a = u64::MAX - rng.gen_range(0..=EPS);
             let b = u64::MAX - rng.gen_range(0..=EPS);
@@ -571,7 +571,7 @@ pub fn run(tier: Tier) -> ! {
 
     // Phase 3: inverse / exp.
     {
-        let n = run.n(64, 20_000, 1_000_000);
+        let n = run.n(32, 20_000, 1_000_000);
         let accs: Vec<Acc> = (0..16u64)
             .into_par_iter()
             .map(|t| {
@@ -669,7 +669,7 @@ pub fn run(tier: Tier) -> ! {
         type PF = <F as Packable>::Packing;
         let w = <PF as PackedField>::WIDTH;
         run.set_extra("packing_width", json!(w));
-        let n = run.n(160, 100_000, 5_000_000);
+        let n = run.n(64, 100_000, 5_000_000);
         let accs: Vec<Acc> = (0..16u64)
             .into_par_iter()
             .map(|t| {
